@@ -82,6 +82,14 @@ META = {
     "round4": "big batches (2^14+1 … 2^16+1 items: item / split consistency bit for bit, exact equations on the last item); reference time equal "
               "to the clock exactly and off by one; user sub-subclasses and direct System subclasses; time stamps above 2^24 / 2^53 with user "
               "functions doing exact integer arithmetic on t (time base T0); grad-mode orders on shapes fresh in the process, backward() in grad mode",
+    "round5": "user subclasses overriding any subset of the PROPERTIES A, B, C, D, c1, c2 (values computed from the clock outside the buffers; the "
+              "constructor gets None / zeros / junk), LTI and LTV, clock-indexed and periodic; the model's `objForward` (op c15.obj) reads the "
+              "property for the None test and the value; det stream (19 corpus + 40 / 600): several default-constructed systems interleaved "
+              "(jacargs changed in place, reference points, resets) against the documented defaults, every dtype torch accepts for bmv / bvv / "
+              "bvmv / an LTI step (int64…uint8, float16, bfloat16, complex64/128; value and dtype; bool is refused by torch itself), two "
+              "identical calls of every entry point with every other entry point run on single-item / all-1 shapes and their results "
+              "overwritten in between (bit for bit); user f / g that return their argument or a view of it; batches of 2^17+5 (quick) and "
+              "2^18+1, 2^18+37, 2^20+1 (thorough) with the last n mod 2^k items checked; nearly-identity / nearly-zero matrices",
     "partial": ["IEEE rounding is not modelled: the float code is compared with the exact model at 64·eps·(sum of "
                 "absolute term magnitudes)",
                 "the explicit second-order constant (Fn.bnd, nls_second_order_explicit) is an upper bound, not the least constant",
@@ -994,7 +1002,10 @@ def lin_tensors(case):
         elif X_.shape[-1] == X_.shape[-2]:
             X_.copy_(torch.eye(X_.shape[-1], dtype=X_.dtype).expand(X_.shape))
             if how_ == "neareye":     # identity up to a 1e-6 relative perturbation: must not be treated as the identity
-                X_.add_(torch.randn(X_.shape, generator=g, dtype=torch.float64).to(X_.dtype) * 1e-6)
+                # (diagonal: inside the default rtol = 1e-5 of allclose; off the diagonal: inside its atol = 1e-8)
+                pert = torch.randn(X_.shape, generator=g, dtype=torch.float64)
+                eye_ = torch.eye(X_.shape[-1], dtype=torch.float64).expand(X_.shape)
+                X_.add_((pert * (eye_ * 1e-6 + (1 - eye_) * 5e-9)).to(X_.dtype))
     c1 = rnd(case["bc1"], (n,), "c1") if case["c1"] else None
     c2 = rnd(case["bc2"], (p,), "c2") if case["c2"] else None
     case["_guards"] = guards
@@ -2362,7 +2373,8 @@ def strip(case):
     return {"kind": "nls", "seed": case["seed"], **({"corpus": case["corpus"]} if "corpus" in case else {}),
             "nx": case["nx"], "nu": case["nu"], "dtype": case["dtype"],
             "f": [" ".join(tree_tokens(t, [])) for t in case["fs"]], "g": [" ".join(tree_tokens(t, [])) for t in case["gs"]],
-            "events": [{k: v for k, v in e.items()} for e in case["events"]], "slots": case.get("slots", [])}
+            "events": [{k: v for k, v in e.items()} for e in case["events"]], "slots": case.get("slots", []),
+            **({"passthrough": case["passthrough"]} if case.get("passthrough") else {}), **({"T0": case["T0"]} if case.get("T0") else {})}
 
 
 def nls_oracles(ctx, case, cinfo, sys_, ref, got, eps, dt, rr, full):
@@ -3046,6 +3058,9 @@ def check_dtype(ctx: Ctx, case):
         ctx.fail(pub(case), f"dtype-clock: one LTI call on {dtype} operands leaves the clock at {int(sys_.systime)}")
 
 
+POISON = [0]
+
+
 def check_interleave(ctx: Ctx, case):
     """two identical calls of every entry point (bmv, bvv, bvmv, an LTI step, an NLS step, the NLS linearisation) with EVERY
     other entry point run in between on degenerate shapes (single item, all-1 batches, n = 1) and the results of those
@@ -3111,7 +3126,8 @@ def check_interleave(ctx: Ctx, case):
         with torch.no_grad():
             for t_ in outs:
                 if isinstance(t_, torch.Tensor) and not t_.is_inference() and 0 not in t_.stride():
-                    t_.fill_(7) if t_.dtype != torch.bool else None
+                    POISON[0] += 1            # another value every time: a poisoned constant differs between the two calls
+                    t_.fill_(3 + POISON[0] % 89) if t_.dtype != torch.bool else None
 
     for name, fn in ops.items():
         first = fn().clone()
@@ -3471,7 +3487,9 @@ BMV_CORPUS = [
     _bmv(16, "bmv", 3, 2, [3], [3], [], mode="grad"),
     _bmv(17, "bvmv", 2, 2, [3], [3], [3], [3], mode="inference"),
 ]
-CORPORA = {"multi": CORPUS, "lin": LIN_CORPUS, "nls": NLS_CORPUS, "bmv": BMV_CORPUS, "big": BIG_CORPUS, "det": DET_CORPUS}
+CORPORA = {k_: {c_["corpus"]: c_ for c_ in v_} for k_, v_ in
+           {"multi": CORPUS, "lin": LIN_CORPUS, "nls": NLS_CORPUS, "bmv": BMV_CORPUS, "big": BIG_CORPUS, "det": DET_CORPUS}.items()}     # replay looks a corpus case up by its id
+assert all(len(CORPORA[k_]) == len(v_) for k_, v_ in (("multi", CORPUS), ("lin", LIN_CORPUS), ("nls", NLS_CORPUS), ("bmv", BMV_CORPUS), ("big", BIG_CORPUS), ("det", DET_CORPUS))), "corpus ids must be unique"
 
 
 # ============================================================================= driver
